@@ -39,7 +39,7 @@ def step (st : St) (line : String) : St × String :=
   | "case" :: _ =>
     -- start of a stateful sequence: every module's session state is reset; only the basis table survives
     -- (and the C06 cache of the last solved game graph, a pure function of its root position)
-    ({ basis := st.basis, solvers := st.solvers }, "ok")
+    ({ basis := st.basis, solvers := { graph := st.solvers.graph } }, "ok")
   | op :: args =>
     let rec go : List Handler → St × String
       | [] => (st, "bad-op")
